@@ -28,6 +28,8 @@ structure DS where
   ackRev : List Entry := []
   /-- chronicler mode: treasures the writer refused and `Write` only logged -/
   chronDropped : Nat := 0
+  /-- API mode: (name length, key length, seed) of every `Set` the gateway acknowledged -/
+  apiAcked : List (Nat × Nat × Nat) := []
 
 def triArg (kv : List (String × String)) (k : String) (dflt : Bool) : Bool :=
   match arg kv k with
@@ -49,6 +51,9 @@ def cfgOfArgs (kv : List (String × String)) : Cfg :=
     shortPayloadIsEOF := triArg kv "shortPayloadIsEOF" false
     chronSurfacesError := triArg kv "chronSurfacesError" false
     openCutsTornTail := triArg kv "openCutsTornTail" false
+    apiValidatesKeys := triArg kv "apiValidatesKeys" false
+    apiBoundsNameLength := triArg kv "apiBoundsNameLength" false
+    tuiListsAll := triArg kv "tuiListsAll" false
     v2Fallback := triArg kv "v2Fallback" true
     rejectsLongName := triArg kv "rejectsLongName" false }
 
@@ -194,6 +199,30 @@ def step (d : DS) (line : String) : DS × String :=
         if r == .ok then (d', okc + 1, last) else (d', okc, replyStr r)) (d, 0, "ok")
       (d', if okc == n then "ok" else s!"{last} after={okc}")
     | _, _, _, _ => (d, "bad-op")
+  | ["aset", nl, kl, sd] =>
+    match nl.toNat?, kl.toNat?, sd.toNat? with
+    | some nl, some kl, some sd =>
+      let nameOk := apiAcceptsName d.cfg (List.replicate (min nl 70000) 0)
+      let keyOk := !(d.cfg.apiValidatesKeys && (kl == 0 || 65535 < kl))
+      if nameOk && keyOk then ({ d with apiAcked := (max nl (s!"verifapi/r{sd}/x").length, kl, sd) :: d.apiAcked }, "ok") else (d, "invalid")
+    | _, _, _ => (d, "bad-op")
+  | ["arpc", _, kl, _] =>
+    match kl.toNat? with
+    | some kl => (d, if d.cfg.apiValidatesKeys && (kl == 0 || 65535 < kl) then "invalid" else "ok")
+    | none => (d, "bad-op")
+  | ["arestart"] => (d, "ok")
+  | ["aget", nl, kl, sd] =>
+    match nl.toNat?, kl.toNat?, sd.toNat? with
+    | some nl, some kl, some sd =>
+      let nl' := max nl (s!"verifapi/r{sd}/x").length
+      if !apiAcceptsName d.cfg (List.replicate (min nl' 70000) 0) then (d, "invalid") else
+      let acked := d.apiAcked.contains (nl', kl, sd)
+      -- what survives a restart is what the writer could store
+      let stored := acked && nl' ≤ 65535 && 0 < kl && kl ≤ 65535
+      let flag := if acked && !stored then
+          (if 65535 < nl' then "\t#F:C01-api-acks-unstorable-name" else "\t#F:C01-chronicler-drops-refused-entry") else ""
+      (d, (if stored then "found" else "missing") ++ flag)
+    | _, _, _ => (d, "bad-op")
   | ["ccfg", bs, nm] =>
     match bs.toNat?, parseSpec nm with
     | some bs, some name =>
@@ -226,7 +255,7 @@ def step (d : DS) (line : String) : DS × String :=
       | .ok (m, _) => indexDigest m == indexDigest believed
     let flag :=
       if good then ""
-      else if d.chronDropped > 0 && !d.cfg.chronSurfacesError && (specFlag d r).isEmpty then "\t#F:C01-chronicler-drops-refused-entry"
+      else if d.chronDropped > 0 && !(d.cfg.chronSurfacesError || d.cfg.apiValidatesKeys) && (specFlag d r).isEmpty then "\t#F:C01-chronicler-drops-refused-entry"
       else specFlag d r
     (d, line ++ flag)
   | ["wb", n, kl, dl, st] =>
